@@ -28,6 +28,13 @@ CLAIMS = {
         note=A1 + 'eval_dependencies is an assumed callee contract here (decided in C04). Thresholds are real-valued under A1.',
         technique='contract-based deductive verification (Verus) of mechanically extracted Rust functions',
         ref='DESIGN 6 C05'),
+    'C14': dict(
+        text='Deductive proof (Verus) of the real text of Instance::relax_constraint / restore_constraint: Err exactly when the id is not in the expected list and then *self is unchanged; '
+             'otherwise the first match is removed (order of the rest kept) and pushed on the other list with exactly the given reason, every other field framed. Ghost lemmas: the multiset of all constraints '
+             '(whole messages) and id-uniqueness are invariant over operation histories of ANY length (induction).',
+        note='Assumes the extraction rules, Verus+Z3, Iterator::position / Option::is_some_and contracts (stated over the closure ensures, closure bodies are source text). No floating point involved.',
+        technique='contract-based deductive verification (Verus) of mechanically extracted Rust functions + inductive ghost lemma over histories',
+        ref='DESIGN 6 C14'),
 }
 NA = {
     'C06': 'evaluate_samples is built from FnMut closures capturing &mut state and iterator adapters over HashMap<OrderedFloat,..>: rejected by Verus, far beyond measured Kani limits; leaf lookups alone do not decide the property (DESIGN 6 C06)',
